@@ -5,6 +5,7 @@ package processor
 import (
 	"context"
 	"fmt"
+	"reflect"
 	"runtime/debug"
 	"testing"
 	"time"
@@ -431,20 +432,36 @@ func runC13Ticks(c c13TickCase) (*vh.Violation, vh.Outcome) {
 	if why, ok := send(e.obsvC, garbage, died); !ok {
 		return fail("barrier", why)
 	}
-	// the loop is past the statement that created its ticker (it has received from its channels): shorten the period
-	e.p.cleanup.Reset(time.Duration(c.TickUs) * time.Microsecond)
+	// the loop is past the statement that created its ticker (it has received from its channels): shorten the period.
+	// The ticker is found by reflection: a tree whose loop times its cleanup differently still compiles with this
+	// harness, and this unit then has nothing to shorten (the 30 s period itself is C14's business).
+	ticker := loopTicker(e.p)
+	if ticker == nil {
+		out.Inconclusive = true
+		out.Labels = append(out.Labels, "inconclusive:no-cleanup-ticker-field")
+		return nil, out
+	}
+	ticker.Reset(time.Duration(c.TickUs) * time.Microsecond)
 	for i := 0; i < c.Obs; i++ {
 		if why, ok := send(e.obsvC, obs(), died); !ok {
 			return fail(fmt.Sprintf("observation %d of %d with the cleanup ticker at %d us and %d entries", i, c.Obs, c.TickUs, c.Entries), why)
 		}
 	}
-	e.p.cleanup.Reset(30 * time.Second)
+	ticker.Reset(30 * time.Second)
 	for k := 0; k < 2; k++ {
 		if why, ok := send(e.obsvC, garbage, died); !ok {
 			return fail("after the stream", why)
 		}
 	}
 	return nil, out
+}
+
+func loopTicker(p *Processor) *time.Ticker {
+	f := reflect.ValueOf(p).Elem().FieldByName("cleanup")
+	if !f.IsValid() || f.Kind() != reflect.Ptr || f.IsNil() || f.Type() != reflect.TypeOf((*time.Ticker)(nil)) {
+		return nil
+	}
+	return (*time.Ticker)(f.UnsafePointer())
 }
 
 func TestVerif_C13_RunLoopTicks(t *testing.T) {
